@@ -413,9 +413,61 @@ fn gen_inflating(rng: &mut Rng, cfg: &PacketCfg) -> Msg {
     m
 }
 
+/// A name that starts right at the edge of what a 14-bit compression pointer can address
+/// (offset 16382, 16383 or 16384), used again by later records.
+fn gen_pointer_limit(rng: &mut Rng, cfg: &PacketCfg) -> Msg {
+    let qname = gen_ldh_name(rng);
+    let mut m = Msg {
+        id: rng.next_u64() as u16,
+        flags: 0x8180,
+        q: Some(Question {
+            name: if qname.0.is_empty() { Name::from_labels(&[b"q", b"test"]) } else { qname },
+            qtype: 1,
+            qclass: 1,
+        }),
+        ..Default::default()
+    };
+    let edge = *rng.pick(&[16382usize, 16383, 16383, 16384]);
+    let qlen = m.q.as_ref().unwrap().name.wire_len();
+    // header + question + filler record (root owner, opaque rdata) must end exactly at `edge`
+    let used = 12 + qlen + 4 + 1 + 10;
+    let filler = edge - used;
+    let sec = rng.below(3);
+    m.sec[sec].push(Rec {
+        name: Name::root(),
+        rtype: T_TXT,
+        class: 1,
+        ttl: 1,
+        rdata: RData::Opaque(vec![b'f'; filler]),
+    });
+    let edge_name = Name::from_labels(&[b"edge", b"limit", b"example"]);
+    let n_after = rng.range(2, 5);
+    for i in 0..n_after {
+        let rtype = *rng.pick(&[T_A, T_A, T_CNAME, T_NS, T_MX]);
+        let mut ng = |_r: &mut Rng| edge_name.clone();
+        let r = Rec {
+            name: edge_name.clone(),
+            rtype,
+            class: 1,
+            ttl: 100 + i as u32,
+            rdata: gen_rdata_for(rng, rtype, &mut ng),
+        };
+        // later records go into the same or a later section so that wire order is kept
+        let s = rng.range(sec, 2);
+        m.sec[s].push(r);
+    }
+    if cfg.opt == OptPlace::Last {
+        m.sec[2].push(gen_opt(rng));
+    }
+    m
+}
+
 pub fn gen_msg(rng: &mut Rng, cfg: &PacketCfg) -> Msg {
     if cfg.shape == Shape::Inflating {
         return gen_inflating(rng, cfg);
+    }
+    if cfg.shape == Shape::Big && cfg.density == 1000 && rng.chance(1, 2) {
+        return gen_pointer_limit(rng, cfg);
     }
     let (pool, chain) = name_pool(rng, cfg.shape);
     let mut next_in_chain = 0usize;
@@ -590,6 +642,10 @@ pub fn gen_rr_text(rng: &mut Rng) -> String {
     let ws = |rng: &mut Rng| -> &'static str { *rng.pick(&[" ", " ", "\t", "  ", " \t "]) };
     let class = *rng.pick(&["IN", "IN", "in", "In"]);
     let host = |rng: &mut Rng| -> String {
+        if rng.chance(1, 10) {
+            // the root name is a legal target (e.g. "SOA . . (...)", "MX 0 .")
+            return ".".to_string();
+        }
         let mut n = gen_ldh_name(rng);
         if n.0.is_empty() {
             n = Name::from_labels(&[b"ns1", b"example", b"net"]);
